@@ -30,7 +30,8 @@ def run(ctx):
     ctx.tlc_mc("Logger", "MC_Logger_unique", workers=8, timeout=600)
     binary = ctx.go_build_test("./command/log")
     procs = 8
-    envs = [{"VF_OUT": os.path.join(ctx.scratch, "c14-%d.ndjson" % k), "VF_RUNS": 24 if quick else 400, "VERIF_SEED": ctx.seed * 100 + k} for k in range(procs)]
+    envs = [{"VF_OUT": os.path.join(ctx.scratch, "c14-%d.ndjson" % k), "VF_RUNS": 24 if quick else 400, "VERIF_SEED": ctx.seed * 100 + k,
+             "VF_VOLUME": 2 if (quick and k == 0) or (not quick and k < 4) else 0} for k in range(procs)]
     res = vf.go_run_many(ctx, binary, "^TestVfLogger$", envs, timeout=2400)
     events = []
     for (rc, out), e in zip(res, envs):
@@ -57,7 +58,7 @@ def run(ctx):
     n, _ = vf.validate_runs(ctx, "LoggerTrace", trace, keyfn=lambda run, evt: "logger:%s:%s" % (evt.get("ev"), evt.get("what", "")), label="logger")
     ctx.count(0, [("run", i) for i in range(n)])
     # socket-level tier: live ARP with the unique logger on the wire: a host that answers in every pass is printed once
-    n3, rej = wt.run_wire(ctx, select=lambda s: s["name"] == "arp-live", label="c14w", focus="live")
+    n3, rej = wt.run_wire(ctx, select=lambda s: s["name"].startswith("arp-live"), label="c14w", focus="live")
     wt.report(ctx, "C14", rej)
     for r0 in runs[:2]:
         ctx.sample([{k: (v if k != "c" else v[:30]) for k, v in e.items()} for e in r0[:12]])
